@@ -14,7 +14,8 @@ pub(crate) trait LWEDecryptDefault<BE: Backend>: Sized + VecZnxNormalize<BE> + V
     where
         A: LWEInfos,
     {
-        let lvl_0: usize = LWEPlaintext::bytes_of(infos.size());
+        // the plaintext is 8 * size bytes and the next take starts on a 64-byte boundary
+        let lvl_0: usize = LWEPlaintext::bytes_of(infos.size()).next_multiple_of(64);
         let lvl_1: usize = self.vec_znx_normalize_tmp_bytes();
 
         lvl_0 + lvl_1
